@@ -1,3 +1,4 @@
+import Varint.Lemmas.Adaptive
 import Varint.Bridge.Sizes
 import Varint.Lemmas.FloatDec
 import Varint.Lemmas.BP128
@@ -113,6 +114,13 @@ theorem c_rle_extent_le_max (xs : List Nat) (h : xs.length < 2 ^ 56) :
     (RLE.enc xs).length ≤ Varint.Gen.C.rleMaxSize xs.length ∧ (RLE.encH xs).length ≤ Varint.Gen.C.rleMaxSize xs.length := by
   rw [Varint.Bridge.Sizes.rleMaxSize_eq _ (by omega)]
   exact rle_extent_le_max xs
+
+
+/-- adaptive: whatever is selected (every outcome of the float comparisons) fits varintAdaptiveMaxSize(count) -/
+theorem adaptive_extent_le_max (φ : Adaptive.FloatPreds) (xs : List Nat) (hne : xs ≠ []) (hx : ∀ x ∈ xs, x < 2 ^ 64)
+    (hn : xs.length < 2 ^ 32) :
+    (Adaptive.encodeWith (Adaptive.selectWith φ (Adaptive.analyze xs)) xs).length ≤ Adaptive.maxSize xs.length :=
+  Adaptive.adaptive_size_sel φ xs hne hx hn
 
 example : (RLE.encH [2 ^ 64 - 1]).length = 11 ∧ RLE.maxSize 1 = 19 := by decide
 
